@@ -197,6 +197,9 @@ impl Balance {
             .flatten()
             .collect::<HashSet<_>>() // make it distinct
             .into_iter()
+            // deterministic order: hash iteration order would otherwise decide
+            // the order of summation, and with it the scale of tree sums (2 vs 2.0)
+            .sorted_by(|a, b| a.0.cmp(&b.0))
             .collect::<Vec<(TxnAccount, Decimal)>>();
 
         // Get all root accounts
